@@ -38,6 +38,16 @@ theorem get_set (g : Grid2 β) (d : β) (i j i' j' : Nat) (v : β) :
     simp only [h2, and_self, true_and, if_true, getD_setIfInBounds]
   · rw [if_neg h, if_neg]; intro hh; exact h ⟨hh.1, hh.2.2.1⟩
 
+theorem size_set (g : Grid2 β) (i j : Nat) (v : β) : (g.set i j v).size = g.size := by
+  simp [Grid2.set]
+
+theorem row_set (g : Grid2 β) (i j k : Nat) (v : β) : ((g.set i j v).getD k #[]).size = (g.getD k #[]).size := by
+  unfold Grid2.set
+  rw [getD_modify]
+  split
+  · rename_i h; rw [← h.1]; simp
+  · rfl
+
 theorem get_set_ne (g : Grid2 β) (d : β) (i j i' j' : Nat) (v : β) (h : ¬ (i = i' ∧ j = j')) :
     (g.set i j v).get d i' j' = g.get d i' j' := by
   rw [get_set]; rw [if_neg]; intro hh; exact h ⟨hh.1, hh.2.1⟩
